@@ -106,7 +106,11 @@ class C18(Prop):
 
         small = [ac.chain(3), ac.cycle(3), [('a', 'b'), ('c',)], [('a',), ('a', 'b'), ('b', 'c')], [('a', 'b')], [('a', 'b'), ('a', 'b'), ('b',)],
                  [('a',), ('b',), ('c',)], ac.star(4)]
-        big = [ac.all_pairs(4), [('a', 'b', 'c'), ('b', 'c', 'd'), ('a', 'd')], ac.chain(5), ac.cycle(4), [('a', 'b', 'c'), ('c', 'd', 'e')]]
+        big = [ac.all_pairs(4), [('a', 'b', 'c'), ('b', 'c', 'd'), ('a', 'd')], ac.chain(5), ac.cycle(4), [('a', 'b', 'c'), ('c', 'd', 'e')],
+               # region graphs deeper than two levels: "diamonds" (two overlaps of one clique that overlap again: the message schedule of
+               # the approx oracle matters) and nested marginals (a region with both parents and children)
+               [('a', 'b', 'c'), ('a', 'b', 'd'), ('b', 'c', 'e')], [('a', 'b', 'c'), ('a', 'b', 'd'), ('a', 'c', 'd')],
+               [('a',), ('a', 'b'), ('a', 'b', 'c')], [('a', 'b', 'c'), ('b', 'c', 'd'), ('b', 'e')]]
         gen_slow, gen = [], []
         for cl in small:
             for oracle in ('pairwise', 'convex', 'approx'):
